@@ -41,9 +41,13 @@ type pipeLedger struct {
 	step    func() uint64 // time increment per anchored batch
 	direct  bool          // concurrent mode: push to the observer immediately
 	refsOf  map[string][]*operation.Reference
+	failing func() bool // fault injection: true = this WriteAnchor call fails (called without the ledger lock)
 }
 
 func (l *pipeLedger) WriteAnchor(anchor string, _ []*protocol.AnchorDocument, refs []*operation.Reference, ver uint64) error {
+	if l.failing != nil && l.failing() {
+		return fmt.Errorf("injected anchor write failure")
+	}
 	l.mu.Lock()
 	l.now += l.step()
 	l.n++
@@ -97,7 +101,29 @@ func (c *timeClient) Get(t uint64) (protocol.Version, error) {
 type pipeCtx struct {
 	pc protocol.Client
 	l  *pipeLedger
-	q  *opqueue.MemQueue
+	q  cutter.OperationQueue
+}
+
+// faultQueue is the real in-memory queue whose Add can be made to fail once (the batch writer refuses the operation).
+type faultQueue struct {
+	*opqueue.MemQueue
+	mu       sync.Mutex
+	failNext bool
+	refused  int
+}
+
+func (q *faultQueue) Add(data *operation.QueuedOperation, protocolVersion uint64) (uint, error) {
+	q.mu.Lock()
+	f := q.failNext
+	q.failNext = false
+	if f {
+		q.refused++
+	}
+	q.mu.Unlock()
+	if f {
+		return 0, fmt.Errorf("injected queue failure")
+	}
+	return q.MemQueue.Add(data, protocolVersion)
 }
 
 func (c *pipeCtx) Protocol() protocol.Client             { return c.pc }
@@ -127,6 +153,7 @@ type pipeline struct {
 	obs      *observer.Observer
 	pc       *timeClient
 	q        *opqueue.MemQueue
+	fq       *faultQueue
 	upd      *restdoc.UpdateHandler
 	res      *restdoc.ResolveHandler
 	cas      *hx.MemCAS
@@ -171,7 +198,8 @@ func newPipeline(r *hx.Rng, twoVers, useUnpub, concurrent bool) (*pipeline, erro
 		dopts = append(dopts, dochandler.WithUnpublishedOperationStore(pl.unpub, allOpTypes))
 	}
 	pl.q = &opqueue.MemQueue{}
-	w, err := batch.New(hx.Namespace, &pipeCtx{pc: pl.pc, l: pl.ledger, q: pl.q}, batch.WithBatchTimeout(3*time.Millisecond), batch.WithMonitorInterval(time.Millisecond))
+	pl.fq = &faultQueue{MemQueue: pl.q}
+	w, err := batch.New(hx.Namespace, &pipeCtx{pc: pl.pc, l: pl.ledger, q: pl.fq}, batch.WithBatchTimeout(3*time.Millisecond), batch.WithMonitorInterval(time.Millisecond))
 	if err != nil {
 		return nil, err
 	}
@@ -236,7 +264,7 @@ func docContent(res *document.ResolutionResult, _ string) string {
 }
 
 func checkC20(c *hx.Ctx) {
-	c.Rule("full pipeline of REAL components: DocumentHandler (partly through the REST update handler) -> batch.Writer (step hook) -> OperationHandler -> in-memory CAS -> ledger -> Observer goroutine -> TxnProcessor -> operation store -> OperationProcessor -> DID transformer. Runs: 2-6 DIDs, 5-40 interleaved client-built operations (create from document or patches, update, recover, deactivate; several operations of one DID inside one batch -> deferral), PRNG-chosen flush (monitor / timeout tick) and observation points, one or two protocol versions (genesis 0 and 500; the second disables ietf-json-patch and has another time delta and batch size) with ledger time crossing the boundary, with and without unpublished-operation store; at every quiescent point each DID is resolved through ResolveDocument and compared with the reference state machine applied to its ACCEPTED operations in anchoring order under the version in force at acceptance, projected with the independent DID projection; create response, long-form resolution before anchoring and short-form resolution after anchoring must have the same content; at the end a bounded drain must anchor every accepted operation; a concurrent slice (submitters and resolvers in goroutines, writer and observer on tickers) is judged at quiescence; race detector on. non-trivial = run in which >= 3 operations of one DID were applied; distinct = distinct run shapes")
+	c.Rule("full pipeline of REAL components: DocumentHandler (partly through the REST update handler) -> batch.Writer (step hook) -> OperationHandler -> in-memory CAS -> ledger -> Observer goroutine -> TxnProcessor -> operation store -> OperationProcessor -> DID transformer. Runs: 2-6 DIDs, 5-40 interleaved client-built operations (create from document or patches, update, recover, deactivate; several operations of one DID inside one batch -> deferral), PRNG-chosen flush (monitor / timeout tick) and observation points, one or two protocol versions (genesis 0 and 500; the second disables ietf-json-patch and has another time delta and batch size) with ledger time crossing the boundary, with and without unpublished-operation store; every second sequential run injects faults: the batch writer's queue refuses a PRNG-chosen submission (the operation must be reported as failed and leave no trace), one CAS write or the anchor write of a batch fails (the batch is rolled back and retried later), half of the time with another operation accepted between the cut and the roll-back; at every quiescent point each DID is resolved through ResolveDocument and compared with the reference state machine applied to its ACCEPTED operations in anchoring order under the version in force at acceptance, projected with the independent DID projection; create response, long-form resolution before anchoring and short-form resolution after anchoring must have the same content; at the end a bounded drain must anchor every accepted operation; a concurrent slice (submitters and resolvers in goroutines, writer and observer on tickers) is judged at quiescence; race detector on. non-trivial = run in which >= 3 operations of one DID were applied; distinct = distinct run shapes")
 	c.Set("race_detector_enabled", raceEnabled)
 	nRuns := c.N(90, 3000)
 	root := c.Rng("runs")
@@ -265,6 +293,11 @@ func checkC20(c *hx.Ctx) {
 	c.Floor("operations_with_window", 20)
 	c.Floor("alias_resolutions_compared", 50)
 	c.Floor("runs_with_label", 5)
+	c.Floor("fault:queue_add_refused", 3)
+	c.Floor("fault:queue_add_refused_with_unpublished_store", 2)
+	c.Floor("fault:cas_write_failed", 2)
+	c.Floor("fault:anchor_write_failed", 2)
+	c.Floor("fault:submission_during_failing_batch", 2)
 }
 
 func runPipeline(c *hx.Ctx, r *hx.Rng, ri int, twoVers, useUnpub, concurrent bool) {
@@ -294,6 +327,7 @@ func runPipeline(c *hx.Ctx, r *hx.Rng, ri int, twoVers, useUnpub, concurrent boo
 	}
 	nDIDs := 2 + r.Intn(5)
 	dids := make([]*pipeDID, nDIDs)
+	faults := !concurrent && (ri%3 == 1 || ri%6 == 3) // with (ri%6 == 3) and without an unpublished-operation store
 	versionAt := func() (uint64, int64, []string) {
 		cur, _ := pl.pc.Current()
 		return cur.Protocol().GenesisTime, int64(cur.Protocol().MaxOperationTimeDelta), cur.Protocol().Patches
@@ -400,8 +434,41 @@ func runPipeline(c *hx.Ctx, r *hx.Rng, ri int, twoVers, useUnpub, concurrent boo
 			}
 			longRes = lr
 		}
+		injected := faults && rr.Chance(1, 7)
+		if injected {
+			pl.fq.mu.Lock()
+			pl.fq.failNext = true
+			pl.fq.mu.Unlock()
+		}
+		unpubBefore := pl.unpub.Len()
 		res, serr := pl.submit(b.Req, viaREST)
-		note("submit %s did%d under v%d via-rest=%v -> err=%v", kind, di, ver, viaREST, serr)
+		note("submit %s did%d under v%d via-rest=%v queue-refuses=%v -> err=%v", kind, di, ver, viaREST, injected, serr)
+		if injected {
+			pl.fq.mu.Lock()
+			reached := !pl.fq.failNext
+			pl.fq.failNext = false
+			pl.fq.mu.Unlock()
+			if reached {
+				c.Count("fault:queue_add_refused")
+				if pl.useUnpub {
+					c.Count("fault:queue_add_refused_with_unpublished_store")
+				}
+				if serr == nil {
+					fail(fmt.Sprintf("ProcessOperation reported success for a %s although the batch writer refused the operation", kind), map[string]interface{}{"request": string(b.Req)})
+					return false
+				}
+				if n := pl.unpub.Len(); n != unpubBefore {
+					fail(fmt.Sprintf("a %s refused by the batch writer stays in the unpublished-operation store (%d -> %d entries)", kind, unpubBefore, n), map[string]interface{}{"request": string(b.Req)})
+					return false
+				}
+				if kind == "create" {
+					amu.Lock()
+					dids[di] = nil
+					amu.Unlock()
+					return true
+				}
+			}
+		}
 		if serr != nil {
 			c.Count("intake_rejected:" + kind)
 			// a refused operation is not part of the DID's accepted history; the client chain must not advance: rebuild keys
@@ -559,6 +626,31 @@ func runPipeline(c *hx.Ctx, r *hx.Rng, ri int, twoVers, useUnpub, concurrent boo
 	}
 	nOps := 5 + r.Intn(36)
 	if !concurrent {
+		// fault injection while a batch is in flight: one CAS write or the anchor write of the batch fails, and (half of the
+		// time) another client operation is accepted between the cut and the roll-back
+		armed, during, ok := "", false, true
+		fire := func(kind string) bool {
+			if armed != kind {
+				return false
+			}
+			armed = ""
+			c.Count("fault:" + kind + "_failed")
+			if during {
+				note("operation submitted while the failing batch is in flight")
+				c.Count("fault:submission_during_failing_batch")
+				if !submitOne(r, r.Intn(nDIDs)) {
+					ok = false
+				}
+			}
+			return true
+		}
+		pl.ledger.failing = func() bool { return fire("anchor_write") }
+		pl.cas.WriteErr = func(int, []byte) error {
+			if fire("cas_write") {
+				return fmt.Errorf("injected CAS write failure")
+			}
+			return nil
+		}
 		for k := 0; k < nOps; k++ {
 			di := r.Intn(nDIDs)
 			if r.Chance(1, 3) && di > 0 {
@@ -570,8 +662,16 @@ func runPipeline(c *hx.Ctx, r *hx.Rng, ri int, twoVers, useUnpub, concurrent boo
 			if r.Chance(1, 3) {
 				force := r.Chance(2, 3)
 				before := pl.q.Len()
+				if faults && r.Chance(1, 3) {
+					armed, during = hx.Pick(r, []string{"cas_write", "anchor_write"}), r.Bool()
+				}
 				pending := pl.w.VerifProcessAvailable(force)
-				note("tick force=%v: queue %d -> %d, ledger time %d", force, before, pending, pl.ledger.Now())
+				wasArmed := armed
+				armed = ""
+				if !ok {
+					return
+				}
+				note("tick force=%v: queue %d -> %d, ledger time %d (fault armed and not reached: %q)", force, before, pending, pl.ledger.Now(), wasArmed)
 				if force && pending > 0 && before > 0 {
 					c.Count("batches_with_deferral")
 				}
